@@ -213,20 +213,40 @@ theorem admid_eq_walk (c : ACfg) (ds : List ERec) (bs : List (List ARow)) (h : G
 theorem admid_frame (c : ACfg) (ds : List ERec) : (getAdmid c ds).length = ds.length :=
   getAdmid_length c ds
 
-/-- `get_cmt` is a per-record map: the value of a record does not depend on any other record -/
-theorem cmt_local (c : ACfg) (a b : List ERec) (x y : List Nat)
-    (hx : getCmt c a = some x) (hy : getCmt c b = some y) : getCmt c (a ++ b) = some (x ++ y) :=
-  getCmt_local c a b x y hx hy
+/-- `get_cmt` is total (05d598c) and a per-record map: one value per record, and the value of a
+    record does not depend on any other record -/
+theorem cmt_local (c : ACfg) (a b : List ERec) : getCmt c (a ++ b) = getCmt c a ++ getCmt c b :=
+  getCmt_local c a b
 
-/-- the walk treats only EVID 1 as a dose (as the code does): an EVID 4 (reset and dose) record
-    after a pre-dose sample is labelled with the pre-dose value 0, not with its route 1 -/
-theorem admid_evid4_witness :
-    getAdmid ⟨false, false, 1, some 1, none, [(1, 1)]⟩ [⟨1, 0, 0, 0⟩, ⟨1, 4, 0, 0⟩, ⟨1, 0, 0, 0⟩] = [0, 0, 0] := by
+theorem cmt_frame (c : ACfg) (ds : List ERec) : (getCmt c ds).length = ds.length := getCmt_length c ds
+
+/-- per-record rules of `get_cmt` without compartment column: from EVID, doses (EVID 1, 4) go to the
+    dose compartment and everything else to 0; from an admid column, observations are in the central
+    compartment — for every model, also one that doses only into DEPOT -/
+theorem cmt_rules (c : ACfg) (r : ERec) (h : c.hasCmt = false) :
+    (c.hasAdm = false → isDoseEv r.evid = true → cmtOf c r = c.doseCmt) ∧
+    (c.hasAdm = false → r.evid ≤ 3 → isDoseEv r.evid = false → cmtOf c r = 0) ∧
+    (c.hasAdm = true → r.evid = 0 → cmtOf c r = c.central) := by
+  refine ⟨?_, ?_, ?_⟩
+  · intro ha hd
+    simp only [isDoseEv, Bool.or_eq_true, beq_iff_eq] at hd
+    rcases hd with e | e <;> simp [cmtOf, h, ha, evidCmt, replaceVal, e, List.lookup]
+  · intro ha h3 hd
+    simp only [isDoseEv, Bool.or_eq_false_iff, beq_eq_false_iff_ne, ne_eq] at hd
+    have : r.evid = 0 ∨ r.evid = 2 ∨ r.evid = 3 := by omega
+    rcases this with e | e | e <;> simp [cmtOf, h, ha, evidCmt, replaceVal, e, List.lookup]
+  · intro ha e
+    simp [cmtOf, h, ha, e]
+
+/-- 208e5ef: an EVID 4 (reset and dose) record carries its own route and makes it the last used one
+    (before the repair this dataset gave `[0, 0, 0]`) -/
+theorem admid_evid4_fixed :
+    getAdmid ⟨false, false, 1, 1, true, none, [(1, 1)]⟩ [⟨1, 0, 0, 0⟩, ⟨1, 4, 0, 0⟩, ⟨1, 0, 0, 0⟩] = [0, 1, 1] := by
   decide +kernel
 
 /-- non-vacuity of `admid_eq_walk`: two individuals, the second starts with a pre-dose sample -/
 example :
-    let c : ACfg := ⟨false, false, 1, some 1, none, [(1, 1)]⟩
+    let c : ACfg := ⟨false, false, 1, 1, true, none, [(1, 1)]⟩
     let ds : List ERec := [⟨1, 1, 0, 0⟩, ⟨1, 0, 0, 0⟩, ⟨2, 0, 0, 0⟩, ⟨2, 1, 0, 0⟩, ⟨2, 0, 0, 0⟩]
     GoodBlocks [(admRows c ds).take 2, (admRows c ds).drop 2] ∧ getAdmid c ds = [1, 1, 0, 1, 1] := by
   refine ⟨?_, by decide +kernel⟩
